@@ -334,6 +334,16 @@ Definition c12_check (c : (bool * float * bool * float * float) * list (event fl
                 cc_lock_range := lr; cc_min := lo; cc_max := hi |} in
   let tr := @run_events float N float cfg evs (@cstate_init float N float [0x1p-2%float; 0x1p-1%float]) in
   Nat.eqb (List.length tr) (List.length exp) && forallb (fun p => obs_ok (fst p) (snd p)) (combine tr exp).
+(* engine stream: the fuzzy output is rebuilt by Engine.process, only value / previous value / exception are compared *)
+Definition c12_check_vp (c : (bool * float * bool * float * float) * list (event float) * list obs_t) : bool :=
+  let '((lp, dv, lr, lo, hi), evs, exp) := c in
+  let N := NumF true [] in
+  let cfg := {| cc_enabled := true; cc_has_defuzzifier := true; cc_lock_previous := lp; cc_default := dv;
+                cc_lock_range := lr; cc_min := lo; cc_max := hi |} in
+  let tr := @run_events float N float cfg evs (@cstate_init float N float []) in
+  Nat.eqb (List.length tr) (List.length exp) &&
+  forallb (fun p => let '(v, pv, _, code) := snd p in
+                    feql (cs_value (fst (fst p))) v && feq (cs_previous (fst (fst p))) pv && Z.eqb (ecode (snd (fst p))) code) (combine tr exp).
 """
 CASE_TYPE = "(bool * float * bool * float * float) * list (event float) * list obs_t"
 
@@ -363,6 +373,156 @@ def coq_case(h, obs):
     exp = [f"({coq_floats(o['value'])}, {vlib.fhex(o['previous'])}, {coq_floats(o['fuzzy'])}, {ECODE.get(o['exc'], 4)}%Z)" for o in obs[1:]]
     return (f"(({coq_bool(c['lock_previous'])}, {vlib.fhex(c['default'])}, {coq_bool(c['lock_range'])}, {vlib.fhex(c['min'])}, {vlib.fhex(c['max'])}), "
             f"{vlib.coq_list(evs)}, {vlib.coq_list(exp)})")
+
+
+# ------------------------------------------------------------------------------------------- engine stream
+# The same cascade, driven through real Engine.process() calls on a small real engine: one input x in [0,1] with
+# three disjoint Rectangle terms, two outputs over [1,2] — y1 (Mamdani, Centroid) and y2 (Takagi-Sugeno Constant
+# terms 0.5 / 1.5 / 3.0, WeightedAverage or WeightedSum: below / inside / above the range).  An input outside every
+# rectangle fires no rule, so the defuzzified value is NaN.  A wrapping defuzzifier records what the real
+# defuzzifier returned; those recorded values are the `d` fed to the model and to the row-wise oracle.
+ENGINE_X = {"B": 0.1, "I": 0.4, "A": 0.7, "N": 0.95}
+
+
+def gen_engine_histories(ctx):
+    rng = ctx.rng
+    kinds = ["float", "array1", "array"]
+    n = 0
+    for seq, cut in seq_cuts(3):
+        for st in SETTINGS:
+            n += 1
+            events, pos = [], 0
+            for size in cut:
+                xs = [ENGINE_X[s] for s in seq[pos : pos + size]]
+                pos += size
+                events.append(["process", xs, ("float" if (n + pos) % 2 else "array1") if size == 1 else "array", None])
+            yield {"setting": st, "events": events, "weighted": "WeightedAverage" if n % 2 else "WeightedSum", "label": f"engine {seq}/{'+'.join(map(str, cut))}"}
+    sc = seq_cuts(4)
+    for _ in range(ctx.n(2500, 40000)):
+        seq, cut = rng.choice(sc)
+        events, pos = [], 0
+        for size in cut:
+            xs = [ENGINE_X[s] for s in seq[pos : pos + size]]
+            pos += size
+            r = rng.random()
+            if events and r < 0.15:
+                events.append(["restart"])
+            elif events and r < 0.30:
+                events.append(["clear"])
+            if rng.random() < 0.25:  # a process() call while one output variable is disabled
+                events.append(["process", [rng.choice(list(ENGINE_X.values())) for _ in range(size)], "array" if size > 1 else rng.choice(kinds[:2]), rng.randrange(2)])
+            events.append(["process", xs, "array" if size > 1 else rng.choice(kinds[:2]), None])
+        yield {"setting": rng.choice(SETTINGS), "events": events, "weighted": rng.choice(["WeightedAverage", "WeightedSum"]), "label": f"engine {seq}/{'+'.join(map(str, cut))}"}
+
+
+def build_engine(h):
+    H = _harness()
+    fl = H["fl"]
+    if "Recording" not in H:
+        class Recording(fl.Defuzzifier):
+            def __init__(self, inner):
+                self.inner = inner
+                self.last = None
+                self.calls = 0
+
+            def configure(self, parameters):
+                pass
+
+            def parameters(self):
+                return ""
+
+            def defuzzify(self, term, minimum, maximum):
+                self.calls += 1
+                r = self.inner.defuzzify(term, minimum, maximum)
+                self.last = [float(x) for x in np.atleast_1d(np.array(r, dtype=float)).ravel()]  # a copy, before defuzzify() mutates it
+                return r
+
+        H["Recording"] = Recording
+    lp, d, lr = h["setting"]
+    kw = dict(minimum=LO, maximum=HI, lock_range=lr, lock_previous=lp, default_value=DEFAULTS[d])
+    e = fl.Engine("c12")
+    e.input_variables = [fl.InputVariable("x", minimum=0.0, maximum=1.0,
+                                          terms=[fl.Rectangle("a", 0.0, 0.2), fl.Rectangle("b", 0.3, 0.5), fl.Rectangle("c", 0.6, 0.8)])]
+    y1 = fl.OutputVariable("y1", aggregation=fl.Maximum(), defuzzifier=H["Recording"](fl.Centroid(40)),
+                           terms=[fl.Triangle("p", 1.0, 1.25, 1.5), fl.Triangle("q", 1.25, 1.5, 1.75), fl.Triangle("r", 1.5, 1.75, 2.0)], **kw)
+    y2 = fl.OutputVariable("y2", defuzzifier=H["Recording"](getattr(fl, h["weighted"])()),
+                           terms=[fl.Constant("below", 0.5), fl.Constant("inside", 1.5), fl.Constant("above", 3.0)], **kw)
+    e.output_variables = [y1, y2]
+    e.rule_blocks = [fl.RuleBlock("rb", implication=fl.Minimum(), activation=fl.General(), rules=[
+        fl.Rule.create("if x is a then y1 is p and y2 is below", e), fl.Rule.create("if x is b then y1 is q and y2 is inside", e),
+        fl.Rule.create("if x is c then y1 is r and y2 is above", e)])]
+    return e
+
+
+def run_engine(h):
+    """Runs the history through Engine.process(); returns, per output variable, the pseudo-history (events with the
+    recorded defuzzified values) and the observations after every event, in the format of run_real."""
+    e = build_engine(h)
+    outs = e.output_variables
+    lp, d, lr = h["setting"]
+    cfg = {"lock_previous": lp, "default": DEFAULTS[d], "lock_range": lr, "min": LO, "max": HI}
+
+    def snap(o, exc, called):
+        v = np.asarray(o.value, dtype=float)
+        return {"value": [float(x) for x in np.atleast_1d(v).ravel()], "previous": float(o.previous_value), "fuzzy": [], "fuzzy_ids": [],
+                "exc": exc, "called": called}
+
+    traces = [{"cfg": cfg, "events": [], "label": f"{h['label']} {o.name} {h['weighted'] if i else 'Centroid'}", "engine": h} for i, o in enumerate(outs)]
+    obs = [[snap(o, None, 0)] for o in outs]
+    for ev in h["events"]:
+        exc = None
+        before = [o.defuzzifier.calls for o in outs]
+        for o in outs:
+            o.defuzzifier.last = None
+        try:
+            with np.errstate(all="ignore"):
+                if ev[0] == "process":
+                    xs, kind, off = ev[1], ev[2], ev[3]
+                    e.input_variables[0].value = float(xs[0]) if kind == "float" else np.array(xs, dtype=float)
+                    if off is not None:
+                        outs[off].enabled = False
+                    try:
+                        e.process()
+                    finally:
+                        if off is not None:
+                            outs[off].enabled = True
+                elif ev[0] == "restart":
+                    e.restart()
+                else:
+                    for o in outs:
+                        o.clear()
+        except Exception as ex:  # noqa: BLE001
+            exc = type(ex).__name__
+        for i, o in enumerate(outs):
+            if ev[0] != "process":
+                traces[i]["events"].append(["clear"])
+            elif ev[3] == i:
+                traces[i]["events"].append(["disabled", []])
+            else:
+                traces[i]["events"].append(["call", o.defuzzifier.last if o.defuzzifier.last is not None else []])
+            obs[i].append(snap(o, exc, o.defuzzifier.calls - before[i]))
+    return traces, obs
+
+
+def process_engine(h):
+    traces, obs = run_engine(h)
+    out = []
+    for t, o in zip(traces, obs):
+        notes = []
+        r = oracle_check(t, o, "engine")
+        if r is None and any(e[0] == "call" and not e[1] for e in t["events"]):
+            r = ("defuzzify:not-called", f"{t['label']}: Engine.process() did not call the defuzzifier of an enabled output variable ({h['events']})")
+        if r:
+            notes.append((r[0].replace("defuzzify:", "engine-process:").replace("clear:", "engine-restart:"), f"{t['label']}: {r[1]}", "engine"))
+        rows = sum(len(e[1]) for e in t["events"] if e[0] == "call")
+        nanrows = sum(1 for e in t["events"] if e[0] == "call" for x in e[1] if x != x)
+        out.append({"notes": notes, "lit": coq_case(t, o), "trace": {"cfg": t["cfg"], "events": t["events"], "label": t["label"], "engine": h},
+                    "obs": [{k: x[k] for k in ("value", "previous", "exc")} for x in o], "rows": rows, "nanrows": nanrows})
+    return out
+
+
+def process_engine_chunk(hs):
+    return [process_engine(h) for h in hs]
 
 
 # ------------------------------------------------------------------------------------------- run
@@ -440,13 +600,13 @@ def run(ctx, build, verdict, ev):
 
     def collect(wait_all):
         while pending and (wait_all or pending[0][0].done() or len(pending) > 1):
-            fut, meta, lits, name = pending.pop(0)
+            fut, meta, lits, name, checker = pending.pop(0)
             bad, log = fut.result()
             if -1 in bad and "inconsistent assumptions" in log and not coq_failed[0]:
                 # another check rebuilt a library of the shared tree while this one was evaluating: rebuild (under the lock) and retry once
                 again = vlib.translate_and_make(COQ_TARGETS)
                 if again.ok:
-                    bad, log = vlib.run_coq_cases(ctx.work, name + "r", COQ_IMPORTS, [(CASE_TYPE, "c12_check", lits)], 1500)
+                    bad, log = vlib.run_coq_cases(ctx.work, name + "r", COQ_IMPORTS, [(CASE_TYPE, checker, lits)], 1500)
                     stats["coq_batches_retried"] = stats.get("coq_batches_retried", 0) + 1
             for i in bad:
                 if i < 0:
@@ -462,7 +622,7 @@ def run(ctx, build, verdict, ev):
         if not build.translation_errors and build.ok and not coq_failed[0]:
             lits, name = list(batch), f"c12_{batch_no[0]}"
             fut = pool.submit(vlib.run_coq_cases, ctx.work, name, COQ_IMPORTS, [(CASE_TYPE, "c12_check", lits)], 1500)
-            pending.append((fut, list(batch_meta), lits, name))
+            pending.append((fut, list(batch_meta), lits, name, "c12_check"))
             batch_no[0] += 1
             collect(False)
         batch.clear()
@@ -507,7 +667,33 @@ def run(ctx, build, verdict, ev):
                 flush()
 
     tasks, keys = [], []
+    estats = {"histories": 0, "output_traces": 0, "events": 0, "process_calls": 0, "process_with_disabled_output": 0, "restarts": 0, "clears": 0,
+              "rows": 0, "nan_rows": 0}
     try:
+        # ---- engine stream (Engine.process on real engines), evaluated by Coq while the main stream is produced
+        ehs = list(gen_engine_histories(ctx))
+        elits, emeta = [], []
+        for part in mp_pool.map(process_engine_chunk, [ehs[i : i + 100] for i in range(0, len(ehs), 100)]):
+            for res2 in part:
+                for res in res2:
+                    for sig, what, kind in res["notes"]:
+                        note(sig, what, res["trace"], kind)
+                    elits.append(res["lit"])
+                    emeta.append({"history": res["trace"], "observed": res["obs"]})
+                    estats["output_traces"] += 1
+                    estats["rows"] += res["rows"]
+                    estats["nan_rows"] += res["nanrows"]
+        for h in ehs:
+            estats["histories"] += 1
+            estats["events"] += len(h["events"])
+            estats["process_calls"] += sum(e[0] == "process" for e in h["events"])
+            estats["process_with_disabled_output"] += sum(e[0] == "process" and e[3] is not None for e in h["events"])
+            estats["restarts"] += sum(e[0] == "restart" for e in h["events"])
+            estats["clears"] += sum(e[0] == "clear" for e in h["events"])
+        if not build.translation_errors and build.ok:
+            fut = pool.submit(vlib.run_coq_cases, ctx.work, "c12_engine", COQ_IMPORTS, [(CASE_TYPE, "c12_check_vp", elits)], 1500)
+            pending.append((fut, emeta, elits, "c12_engine", "c12_check_vp"))
+        # ---- main stream (OutputVariable.defuzzify driven directly)
         for group, h in gen_histories(ctx):
             key = hkey(h)
             if key in seen:
@@ -533,7 +719,7 @@ def run(ctx, build, verdict, ev):
         verdict.add_broken("correspondence", "Model/Cascade.v run_events vs OutputVariable",
                            f"model and implementation differ on {len(mism)} histories; smallest: {m}")
     c = ev["coverage"]
-    c["evaluations"] = total
+    c["evaluations"] = total + estats["output_traces"]
     c["distinct_nontrivial"] = nontrivial
     c["rule"] = ("distinct histories = setting (lock_previous, default in {nan, 1.25 in range, 9.0 out of range}, lock_range; range [1,2]) x sequence over "
                  "{NaN, in-range, below, above} (position-dependent values) x cut into successive calls x fault (defuzzifier raising RuntimeError/ValueError, "
@@ -546,6 +732,10 @@ def run(ctx, build, verdict, ev):
                  "histories with a one-element batch are re-run with 0-d ndarray and numpy.float64 results. non-trivial = histories in which the cascade changed at least one row "
                  "(fill-forward, default or clipping actually happened)")
     c["distribution"] = stats
+    c["engine_stream"] = dict(estats, rule="Engine.process() on real engines (1 input, outputs y1 Centroid / y2 WeightedAverage|WeightedSum), exhaustive input sequences of length<=3 over "
+                              "{no rule fires -> NaN, below, inside, above} x all cuts x 12 settings, single rows as float or 1-element array, plus random histories of length<=4 with a disabled output, "
+                              "restart() and clear() between calls; the defuzzified values recorded by a wrapping defuzzifier are fed to the Coq model (run_events) and to the row-wise oracle; "
+                              "value and previous_value of every output compared after every call")
     c["correspondence_mismatches"] = len(mism)
     c["oracle_violations"] = sum(f["count"] for f in found.values())
     c["oracle_violation_signatures"] = {s: f["count"] for s, f in found.items()}
@@ -561,6 +751,17 @@ def replay(ctx, data):
     for v in data.get("violations", []):
         print(v["signature"], "--", v["what"])
         h = v["replay"]
+        if "engine" in h:  # engine stream: re-run the Engine.process() history and show every output variable
+            eh = dict(h["engine"], setting=tuple(h["engine"]["setting"]))
+            print("  engine history:", eh["setting"], eh["weighted"], eh["events"])
+            traces, obs = run_engine(eh)
+            for t, o in zip(traces, obs):
+                print("  ", t["label"])
+                for e, x in zip([["init"]] + t["events"], o):
+                    print("     ", e, "-> value", x["value"], "previous", x["previous"], "exc", x["exc"])
+                r = oracle_check(t, o, "engine")
+                print("   now:", "still violated: " + r[1] if r else "no violation")
+            continue
         kind = h.get("kind", "array")
         print("  history:", h["cfg"], h["events"], "kind:", kind)
         obs = run_real(h, kind)
